@@ -716,6 +716,9 @@ def run(repo: Repo, rep: Report, tier: str) -> None:
     if not dedups:
         rep.ok("C01-R20", "plan_wire_colors keeps one entry per (source, use) at a sink", "no de-duplication by the source alone", pw20.loc())
 
+    # ---------------- R23 --------------------------------------------------------------
+    _boolean_producers(repo, rep, "C01-R23")
+
     # ---------------- R22 --------------------------------------------------------------
     _operand_order_into_folders(repo, rep, "C01-R22")
 
@@ -759,3 +762,27 @@ def _operand_order_into_folders(repo, rep, rule: str) -> None:
             rep.check(ok, rule, f"{f.short}: {call_name(c)} receives (left, right)", f"({a[:50]}, {b[:50]})" if ok else
                       f"first operand `{a[:70]}`, second `{b[:70]}`: the sides are swapped, `5 - 3` is evaluated as `3 - 5` and `a < b` as `b < a`", f.loc(c))
     rep.floor(rule, "calls of two-operand folding helpers", n, 8)
+
+
+def _boolean_producers(repo, rep, rule: str) -> None:
+    rep.rule(rule, "`&&` and `||` use the cheap arithmetic forms (product, sum) only for operands that are 0 or 1 whatever the inputs are: a decider counts only when it outputs "
+             "the constant 0 or 1 (`cond : 7` does not), a constant only when it is not a declared input (the value written for an input is a placeholder) — everything "
+             "else goes through the `!= 0` normalisation")
+    bp = repo.func("ExpressionLowerer._is_boolean_producer")
+    rets = [n for n in walk_local(bp.node) if isinstance(n, ast.Return) and n.value is not None]
+    from .util import cguards as _cgb
+    n_ = 0
+    for r in rets:
+        gs = [g for g, pol in _cgb(bp, r) if pol]
+        if any("IRDecider" in g for g in gs) and not any("IRArith" in g for g in gs):
+            n_ += 1
+            t = norm(r.value)
+            ok = "output_value in (0, 1)" in t or ".output_value == 1" in t
+            rep.check(ok, rule, "_is_boolean_producer: a decider counts as boolean only with output 0 or 1", t[:80] if ok else
+                      f"`return {t[:60]}` for every decider with an integer output: `((a > 5) : 7) && (b > 0)` is computed as 7 * 1", bp.loc(r))
+        if any("IRConst" in g for g in gs) and norm(r.value) != "False":
+            n_ += 1
+            excl = any(isinstance(x, ast.If) and "user_declared" in norm(x.test) and any(isinstance(b, ast.Return) and norm(b.value) == "False" for b in x.body) for x in walk_local(bp.node))
+            rep.check(excl, rule, "_is_boolean_producer: a declared input is not a boolean because its placeholder is 0 or 1", "user-declared constants are excluded" if excl else
+                      "`Signal a = (\"signal-A\", 0); Signal out = a && a;` is computed as a * a (25 for a = 5)", bp.loc(r))
+    rep.floor(rule, "boolean-producer answers for deciders and constants", n_, 2)
